@@ -56,6 +56,48 @@ def san_summary(err):
     return ((m.group(1) if m else err[-300:]) + (" at " + fr if fr else ""))[:700]
 
 
+def foreign_files():
+    """files of the independent writer tools/pq.py with DICTIONARY pages (carquet's own writer never writes one): the
+    dictionary loads are the other two seek/read gates of the fread path (hook sites 0 and 1) and the dictionary decode
+    goes through the dispatched gather kernels.  -> {codec id: (path of the 2-column file, path of the 4-column file)}"""
+    import struct
+    import pq
+    out = {}
+    n = 120
+    for cid, codec in ((0, "UNCOMPRESSED"), (1, "SNAPPY"), (6, "ZSTD")):
+        paths = []
+        for shape in ("Ib", "IbBd"):
+            path = tmpdir() / f"foreign_{shape}_{codec.lower()}.parquet"
+            paths.append(path)
+            if path.exists() and path.stat().st_size > 12:
+                continue
+            defs = [0 if i % 5 == 0 else 1 for i in range(n)]
+            tdefs = [0 if i % 7 == 3 else 1 for i in range(n)]
+
+            def pages(enc):
+                ps = [pq.PageSpec(40, enc) for _ in range(3)]
+                for p_ in ps:
+                    p_.crc = True
+                return ps
+            nodes = [pq.SchemaNode("c0", "OPTIONAL", "INT32", 0), pq.SchemaNode("c1", "REQUIRED", "BYTE_ARRAY", 0)]
+            cols = [pq.ColumnSpec(defs, [0] * n, [struct.pack("<i", (i * 7) % 13) for i in range(n) if defs[i]], pages("RLE_DICTIONARY"), codec, dictionary="auto", dict_crc=True),
+                    pq.ColumnSpec([0] * n, [0] * n, [("str%d" % (i % 11)).encode() for i in range(n)], pages("PLAIN_DICTIONARY"), codec, dictionary="auto", dict_crc=True)]
+            if shape == "IbBd":
+                nodes += [pq.SchemaNode("c2", "OPTIONAL", "BYTE_ARRAY", 0), pq.SchemaNode("c3", "REQUIRED", "DOUBLE", 0)]
+                cols += [pq.ColumnSpec(tdefs, [0] * n, [("opt-%d" % (i % 9)).encode() for i in range(n) if tdefs[i]], pages("RLE_DICTIONARY"), codec, dictionary="auto"),
+                         pq.ColumnSpec([0] * n, [0] * n, [struct.pack("<d", (i % 17) * 0.5) for i in range(n)], pages("RLE_DICTIONARY"), codec, dictionary="auto")]
+            spec = pq.FileSpec(pq.SchemaNode("schema", "REQUIRED", children=nodes), [pq.RowGroupSpec(n, cols)])
+            tmp = path.with_suffix(".tmp%d" % os.getpid())
+            tmp.write_bytes(pq.write_file(spec, random.Random(5)))
+            os.replace(tmp, path)
+        out[cid] = tuple(paths)
+    return out
+
+
+def fspec_at(path, codec, types, npages=3, rpp=40):
+    return f"@{path} {codec} {types} 1 {npages} {rpp} 0"
+
+
 def parse_kv(line):
     t = line.split()
     kv = {"_status": t[0] if t else "FAULT"}
@@ -225,18 +267,29 @@ def forced_cases(tier, rng, drv):
         (5, 2, 40, 40, "ild"),   # three columns, three threads: P (2,2,2) and M (2,2,2): 90 orders each
     ]
     layouts = [l if len(l) == 5 else l + ("il",) for l in layouts]
-    glines = [f"gates {fspec(codec, types, 1, npages, rpp, 7)} fread {batch}" for codec, npages, rpp, batch, types in layouts]
+    ff = foreign_files()
+    specs = {}
+    for l in layouts:
+        specs[l] = fspec(l[0], l[4], 1, l[1], l[2], 7)
+    # two dictionary-encoded columns of another writer: the dictionary header / body gates (sites 0, 1) take part
+    for cid in (1, 0):
+        l = (cid, 3, 40, 40, "Ib@")
+        layouts.append(l)
+        specs[l] = fspec_at(ff[cid][0], cid, "Ib")
+    glines = [f"gates {specs[l]} fread {l[3]}" for l in layouts]
     gout, rc, err = vlib.run_lines(drv, glines, env=san_env())
     if rc != 0 or len(gout) != len(glines):
         return None, f"gate structure run failed rc={rc}: {err[-800:]}"
-    for (codec, npages, rpp, batch, types), gl in zip(layouts, gout):
+    for l, gl in zip(layouts, gout):
+        codec, npages, rpp, batch, types = l
+        types = types.rstrip("@")
         g = parse_kv(gl)
         if g["_status"] != "OK":
             return None, f"gate structure: {gl}"
         if g.get("hook") != "1":
             return None, "the library was built without the CARQUET_VERIF io-yield hook"
         regs = regions_of(g)
-        spec = fspec(codec, types, 1, npages, rpp, 7)
+        spec = specs[l]
         for ri, (call, ph, counts) in enumerate(regs):
             alls = list(interleavings(counts))
             total = len(alls)
@@ -449,12 +502,47 @@ def check_sweep(rep, tier, rng, drv):
         for mode in ("fread", "mmap", "buffer"):
             for nt in ([4, 16] if tier == "quick" else [2, 4, 6, 8, 12, 16]):
                 lines.append(f"batch {spec} {mode} 12000 {nt} -")
+    # dictionary-encoded files of another writer (dictionary loads = gates 0/1, gather kernels), projections by index and
+    # by name, num_threads = 0 (auto), a FIXED_LEN_BYTE_ARRAY column
+    ff = foreign_files()
+    for cid, (p2, p4) in ff.items():
+        for mode in ("fread", "mmap", "buffer"):
+            for nt in ((2, 16) if tier == "quick" else (2, 3, 4, 8, 16)):
+                for batch in (40, 100):
+                    lines.append(f"batch {fspec_at(p4, cid, 'IbBd')} {mode} {batch} {nt} -")
+                if mode == "fread":
+                    lines.append(f"batch {fspec_at(p4, cid, 'IbBd')} {mode} 120 {nt} jit:{rng.randrange(1 << 30)}")
+    for codec in (0, 6):
+        spec = fspec(codec, "ildfIL", 1, 4, 60, seedbase + 1)
+        for mode in ("fread", "mmap"):
+            for nt in (0, 2, 8):
+                lines.append(f"batch {spec} {mode} 150 {nt} - proj=1")
+                lines.append(f"batch {spec} {mode} 60 {nt} - proj=2")
+        spec = fspec(codec, "xiLx", 1, 3, 50, seedbase + 5)
+        for mode in ("fread", "mmap", "buffer"):
+            for nt in (0, 4):
+                lines.append(f"batch {spec} {mode} 70 {nt} -")
     # files are created by the first case that needs them; make them up front to avoid 16 shards racing
     specs = sorted({" ".join(l.split()[1:8]) for l in lines})
     mk, rc, err = vlib.run_lines(drv, ["mk " + s for s in specs], env=san_env())
     if rc != 0 or any(not m.startswith("OK") for m in mk):
         rep.tie_broken(f"could not write the test files through the writer API: {mk[:3]} {err[-500:]}")
         return
+    # an INVALID file (one page body damaged -> CRC mismatch in one column): the statuses, and the batches before the
+    # error, must still be the same for every thread count (the read_error protocol of the model)
+    for codec in (0, 1):
+        src = tmpdir() / f"c{codec}_ildfIL_1_4_60_{seedbase + 1}.parquet"
+        if src.exists():
+            data = bytearray(src.read_bytes())
+            for frac in (0.35, 0.8):
+                cor = tmpdir() / f"corrupt_{codec}_{int(frac * 100)}_{seedbase + 1}.parquet"
+                if not cor.exists():
+                    d2 = bytearray(data)
+                    d2[int(len(d2) * frac * 0.9)] ^= 0x5A
+                    cor.write_bytes(d2)
+                for mode in ("fread", "mmap"):
+                    for nt in (2, 8):
+                        lines.append(f"batch {fspec_at(cor, codec, 'ildfIL', 4, 60)} {mode} 60 {nt} -")
     out, probs = run_sharded(drv, lines, env=san_env(), timeout=1500)
     for pr in probs:
         rep.violation(f"multi-threaded batch read crashed (driver rc={pr[1]}): {san_summary(pr[2])}", {"case": pr[3]})
